@@ -155,6 +155,10 @@ def judge_recovery(a, fs, state, variant, res, label, replay, fix_args=()):
         return False
     unrec = r.summary("error_unrecoverable")
     nun = int(unrec[0]) if unrec else -1
+    if not unrec and r.rc == 0 and a.load_content().blockmax == 0:
+        # an array without any file block: fix has nothing to process and prints no summary
+        nun = 0
+        res["counters"]["fix_on_array_without_blocks"] = res["counters"].get("fix_on_array_without_blocks", 0) + 1
     if r.rc != 0 and b"Error in preallocated size of parity file" in r.err and a.load_content().version < 3:
         # diagnosis of the witness: format-2 content records no parity size, the size is taken from the
         # file and an unaligned (truncated) parity file makes fix refuse to start
@@ -167,7 +171,15 @@ def judge_recovery(a, fs, state, variant, res, label, replay, fix_args=()):
     probs = scen.verify_tree(a, fs, state, allow_extra=True)
     if probs:
         kinds = sorted({p["what"] for p in probs})
-        viol.append(("fix-wrong-result:" + kinds[0], "%s: after fix (rc 0): %s" % (label, evidence.jsonable(probs[:4])), replay))
+        why = ""
+        try:
+            if kinds == ["missing"] and not unrec and a.load_content().blockmax == 0:
+                # diagnosis: the array holds no file block at all (only empty files, links, directories); fix returns before
+                # the pass that recreates such entries
+                why = "/array-without-any-file-block(fix-returns-before-recreating-empty-files-links-dirs)"
+        except Exception:
+            pass
+        viol.append(("fix-wrong-result:" + kinds[0] + why, "%s: after fix (rc 0): %s" % (label, evidence.jsonable(probs[:4])), replay))
         return False
     r2 = a.cmd("check", variant=variant)
     for s in r2.san:
